@@ -24,10 +24,14 @@ def foreign(fn):
 
 
 class Aw:
-    """A non-coroutine awaitable that completes at once."""
-    def __init__(self, v):
+    """A non-coroutine awaitable that completes at once; being awaited is a point where control is in user code (a hook
+    of the harness may raise there: the awaited operation fails)."""
+    def __init__(self, v, kind=None, ident=None):
         self.v = v
+        self.kind, self.ident = kind, ident
     def __await__(self):
+        if self.kind is not None:
+            V.awaited(self.kind, self.ident)
         return self.v
         yield
 
@@ -104,7 +108,7 @@ class Renderer:
                 self.pre.append("async def _%s(%s):\n    return %s\n\ndef %s(%s):\n    return _%s(%s)\n" % (
                     name, ", ".join(args), call, name, ", ".join(args), name, ", ".join(args)))
             elif flavor == "awaitable":
-                self.pre.append("def %s(%s):\n    return Aw(%s)\n" % (name, ", ".join(args), call))
+                self.pre.append("def %s(%s):\n    return Aw(%s, 'cond', %d)\n" % (name, ", ".join(args), call, cid))
             elif flavor == "future":
                 self.pre.append("def %s(%s):\n    return done_future(%s)\n" % (name, ", ".join(args), call))
             else:
@@ -171,7 +175,7 @@ class Renderer:
                 self.pre.append("async def _%s(%s):\n    return %s\n\ndef %s(%s):\n    return _%s(%s)\n" % (
                     name, ", ".join(args), call, name, ", ".join(args), name, ", ".join(args)))
             elif flavor == "awaitable":
-                self.pre.append("def %s(%s):\n    return Aw(%s)\n" % (name, ", ".join(args), call))
+                self.pre.append("def %s(%s):\n    return Aw(%s, 'cap', %d)\n" % (name, ", ".join(args), call, sid))
             else:
                 raise ValueError(flavor)
         return name
